@@ -4,7 +4,7 @@ use happylock::collection::OwnedLockCollection;
 use happylock::Mutex;
 fn main() {
     let c = OwnedLockCollection::new(vec![Mutex::new(1), Mutex::new(2)]);
-    let a = c.child(); //~ ERROR E0599
+    let a = c.child(); //~ ERROR E0599|E0624
     //~ TWIN: let a = ();
     let b: &Vec<Mutex<i32>> = c.as_ref(); //~ ERROR E0599
     //~ TWIN: let b = ();
